@@ -29,11 +29,12 @@ type MapObj struct {
 	order  []string
 	log    []logEntry
 	useLog bool
+	shared bool
 }
 
 func newMap(kt, vt types.Type) *MapObj {
 	nobj++
-	return &MapObj{id: nobj, kt: kt, vt: vt, slots: map[string]*slot{}}
+	return &MapObj{id: nobj, kt: kt, vt: vt, slots: map[string]*slot{}, shared: allocShared}
 }
 
 type keyCase struct {
